@@ -254,8 +254,19 @@ def eval_case(case):
     orig = cls.step
     lines, impl, viol = [], [], []
     active = [0]
+    import runoracle
+    want_cost = runoracle.expected_costs(full)
+    t_start = runoracle.fdt(full["scenario"]["scenario"]["start_time"])
+    dt_step = datetime.timedelta(minutes=full["scenario"]["scenario"]["interval"])
 
     def wrapped(self):
+        # the rule's "price at or below the threshold" speaks about the price IN FORCE: stated independently of the code's
+        # event processing (latest signal by effect step / start time), compared with what the step is about to read
+        k = (self.current_time - t_start) // dt_step
+        for gid, gc in self.world_state.grid_connectors.items():
+            if 0 <= k < len(want_cost.get(gid, [])) and gc.cost != want_cost[gid][k] and len(viol) < 3:
+                viol.append(("price_in_force", "C10:price_in_force_not_latest_signal:%s" % full["strategy"],
+                             "%s %s: cost %r, latest signal says %r" % (self.current_time, gid, gc.cost, want_cost[gid][k])))
         line = render_world(self, rule)
         ref = copy.deepcopy(self)
         ref_err = None
